@@ -8,8 +8,8 @@ git -C /repo worktree remove --force $W 2>/dev/null
 git -C /repo worktree add -q --detach $W HEAD
 mkdir -p /tmp/neutralout
 : > $OUT
-declare -A LIST=( [N1]="C02 C03 C10 C12 C13 C17 C18" [N2]="C01 C02 C04 C09" [N3]="C08 C12 C13 C14 C17" [N4]="C15 C19 C20" [N5]="C05 C06 C12 C13 C18" [N6]="C01 C02 C06 C09" )
-for n in N1 N2 N3 N4 N5 N6; do
+declare -A LIST=( [N1]="C02 C03 C10 C12 C13 C17 C18" [N2]="C01 C02 C04 C09" [N3]="C08 C12 C13 C14 C17" [N4]="C15 C19 C20" [N5]="C05 C06 C12 C13 C18" [N6]="C01 C02 C06 C09" [N7]="C04 C05 C10 C12 C13" [N8]="C03 C12 C13 C18" )
+for n in ${NEUTRALS:-N1 N2 N3 N4 N5 N6 N7 N8}; do
   git -C $W reset -q --hard HEAD; git -C $W clean -fdq
   git -C $W apply /verif/neutral/$n/patch.diff || { echo "$n APPLY-FAIL" >> $OUT; continue; }
   for id in ${LIST[$n]}; do
